@@ -266,7 +266,7 @@ func c17Payload(kind string, plan []sim.PlanPkt, at int, r *core.Rng) []byte {
 	}
 	for {
 		b := r.Bytes(19 + r.Intn(80))
-		b[4] = []byte{2, 4, 16, 19, 30, 31, 15, 33}[r.Intn(8)]
+		b[4] = []byte{2, 4, 16, 19, 30, 31, 15, 33, 27, 27, 3, 34, 35, 0}[r.Intn(14)]
 		if !refValid(b) {
 			// hostile next_position
 			binary.LittleEndian.PutUint32(b[13:], hostileNext)
